@@ -577,14 +577,11 @@ def Flag.vclass (k : Flag) (v : Term) : VRes :=
 def Flag.store (k : Flag) (v : Term) (st : St) : St :=
   match k with
   | .doubleQuotes =>
-    if v = A "atom" then { st with dq := .atom }
-    else if v = A "codes" then { st with dq := .codes } else { st with dq := .chars }
+    { st with dq := if v = A "atom" then .atom else if v = A "codes" then .codes else .chars }
   | .unknown =>
-    if v = A "fail" then { st with unk := .fail }
-    else if v = A "warning" then { st with unk := .warn } else { st with unk := .error }
+    { st with unk := if v = A "fail" then .fail else if v = A "warning" then .warn else .error }
   | .occursCheck =>
-    if v = A "true" then { st with oc := .sto }
-    else if v = A "error" then { st with oc := .stoError } else { st with oc := .nsto }
+    { st with oc := if v = A "true" then .sto else if v = A "error" then .stoError else .nsto }
   | .awo => { st with awo := some v }
   | _ => st
 
